@@ -130,7 +130,7 @@ def run(tier, seed, t0):
                     fo.write(f.read())
         rows = core.read_ndjson(tf)
         val = core.validate("Trace_Functor", "J04", tf, work, constants=VC, timeout=3000)
-        rejected, clauses = [], Counter()
+        rejected, clauses = core.track([]), Counter()
         for t, v in zip(rows, val["verdicts"]):
             clauses[v[0]] += 1
             if v[0] != "ok":
@@ -150,7 +150,10 @@ def run(tier, seed, t0):
                 can = {"corrupted": "last offset of the image", "rejected_with": got}
                 break
         if can is None:
-            raise core.Machinery("no canary candidate")
+            if not rejected:
+                raise core.Machinery("no canary candidate")
+            # (every observation was rejected: the violations are reported, there is nothing accepted left to corrupt)
+            can = {"skipped": "no accepted observation to corrupt; violations reported"}
         drift = core.validate("Trace_Functor", "JDrift", tf, work, constants=VC, timeout=3000)
         cov = {"states": model["distinct"], "transitions": model["generated"],
                "traces_validated_against_impl": clauses["ok"],
